@@ -200,7 +200,7 @@ def _s_decept(y, A, B, C):
 def _b_flat(y, A, B, C):
     return _correct_to_01(A +
                           min(0.0, math.floor(y - B)) * A * (B - y) / B -
-                          min(0.0, math.floor(C - y)) * (1.0 - A) * (y - C))
+                          min(0.0, math.floor(C - y)) * (1.0 - A) * (y - C) / (1.0 - C))
 
 def _b_poly(y, alpha):
     return _correct_to_01(math.pow(y, alpha))
